@@ -25,7 +25,19 @@ class X86RegisterAllocator(BlockNaiveAllocator):
                 f"Cannot register allocate func with {len(func.body.blocks)} blocks."
             )
 
-        preallocated = RegisterAllocatableOperation.all_used_registers(func.body)
+        preallocated = set(RegisterAllocatableOperation.all_used_registers(func.body))
+        # Registers pre-assigned to values that no instruction with register effects
+        # touches (block arguments of loops, values only passed to loops) are in use too
+        preallocated.update(
+            val.type
+            for op in (func, *func.body.walk())
+            for vals in (
+                op.results,
+                *(block.args for region in op.regions for block in region.blocks),
+            )
+            for val in vals
+            if isinstance(val.type, registers.X86RegisterType) and val.type.is_allocated
+        )
         excluded = RegisterAllocatableOperation.all_excluded_registers(func.body)
 
         for pa_reg in preallocated | excluded:
